@@ -16,8 +16,16 @@ func unmarshalError(jsonUnmarshalErr error) error {
 	return jsonUnmarshalErr
 }
 
-func unmarshal(data []byte, v any, includeOrigin bool) error {
+func unmarshal(data []byte, v any, includeOrigin bool) (err error) {
 	var jsonErr, yamlErr error
+
+	// the YAML reader panics on some inputs when asked to record origins (an empty mapping as a
+	// sequence element, `security: [{}]`): a document that cannot be read is an error
+	defer func() {
+		if r := recover(); r != nil {
+			err = fmt.Errorf("failed to unmarshal data: %v", r)
+		}
+	}()
 
 	// See https://github.com/getkin/kin-openapi/issues/680
 	if jsonErr = json.Unmarshal(data, v); jsonErr == nil {
